@@ -19,7 +19,8 @@ def make_statements(env, specs):
     c2 = []
     for sp, c, gens in zip(specs, c1, o1):
         ctx = sp["ctx"]; p, q, g = pq(ctx)
-        items.append((c, ctx, "generators", c["args"], gens))
+        if not sp.get("_notie"):
+            items.append((c, ctx, "generators", c["args"], gens))
         sp["_gens"] = gens
         es = []
         for i in range(sp["n"]):
@@ -54,8 +55,9 @@ def make_statements(env, specs):
             if rs != draws:
                 env.violation("apply_permutation returns exponents that are not its RNG draws on %s" % ctx, {"kind": "battery", "case": c, "out": o})
         sp["_out"] = out; sp["_rs"] = rs; sp["_perm"] = perm
-        items.append((c, ctx, "apply_permutation_r", [sp["_pk"], [str(x) for x in perm], sp["_es"], rs], [out, rs]))
-    pc = [sp["_permcase"] for sp in specs if "_permcase" in sp]
+        if not sp.get("_notie"):
+            items.append((c, ctx, "apply_permutation_r", [sp["_pk"], [str(x) for x in perm], sp["_es"], rs], [out, rs]))
+    pc = [sp["_permcase"] for sp in specs if "_permcase" in sp and not sp.get("_notie")]
     for c, o in zip(pc, env.harness(pc)):
         items.append((c, c["ctx"], "gen_permutation", c["args"], o))
     return items
